@@ -391,12 +391,58 @@ def o94(ctx):
         ctx.finding(q, takes[0].node, "exactly the particles sitting on zero-valued mask voxels must be removed (mask value == 0)", takes[0].node, m)
     rf = [e for e in ev if e.kind == "call" and e.name.endswith("Motl.remove_feature")]
     ctx.count(1)
-    if len(rf) != 1 or not (is_pyconst(rf[0].args[0]) and pyval(rf[0].args[0]) == "subtomo_id") or no_sel(to_term(rf[0].args[1])) != sym("subtomo_id"):
-        ctx.finding(q, rf[0].node if rf else fn, "the particles must be removed by their subtomogram numbers", rf[0].node if rf else fn, m)
+    if len(rf) != 1:
+        # the hits leave the list in another way (row labels, a keep mask, a restricted selection): which rows that removes is not read off here
+        raise Unsupported("clean_by_tomo_mask: how the particles on zero voxels are taken out of the list is not recognised (no single remove_feature call)", fn)
+    # the field the rows are removed by and the values handed over belong together: the subset's own values of that field
+    f_ = pyval(rf[0].args[0]) if is_pyconst(rf[0].args[0]) else None
+    if f_ is None or no_sel(to_term(rf[0].args[1])) != sym(f_):
+        ctx.finding(q, rf[0].node, "the particles must be removed by the values the hits carry in the very field the removal selects on "
+                    f"(field {f_!r}, values {tm.show(no_sel(to_term(rf[0].args[1])))[:60]})", rf[0].node, m)
     subs = [e for e in ev if e.kind == "call" and e.name.endswith("Motl.get_motl_subset")]
     ctx.count(1)
     if not subs or t_el is None or to_term(subs[0].args[0]) != t_el:
         ctx.finding(q, subs[0].node if subs else fn, "the particles of tomogram t must be selected for mask t", subs[0].node if subs else fn, m)
+
+
+def o911(ctx):
+    """cleaning by a tomogram mask removes exactly the particles of tomogram t that sit on zero voxels 'and keeps all others': what is taken out of the
+    WHOLE list must identify rows of tomogram t.  A removal of the whole list's rows by one field's values alone (remove_feature(field, values of the
+    hits)) also removes every particle of another tomogram that carries one of these values -- subtomogram numbers restart per tomogram in lists
+    concatenated from per-tomogram picking (repeated field values are part of 'all particle lists')."""
+    q = M + "clean_by_tomo_mask"
+    m, fn = ctx.prog.func(q)
+    ctx.touched(q, M + "remove_feature")
+
+    def binz(it_, a, k, n, f):
+        u = Unk(call("binarize", to_term(a[0])))
+        u.rank = 3
+        return u
+
+    it = Interp(ctx.prog, assume=assume_map({k: v for k, v in BASE_A.items() if k != "len(tomos) != len(tomo_masks)"}),
+                summaries={"cryocat.ioutils.tlt_load": lambda it_, a, k, n, f: Unk(call("tlt_load", to_term(a[0]))),
+                           "cryocat.cryomap.binarize": binz}, no_inline=("cryomotl.Motl.write_out", "cryomotl.Motl.remove_feature"))
+    me = motl_obj(ctx.prog)
+    it.run(q, [P("tomo_list"), Unk(sym("tomo_masks"))], {}, self_obj=me)
+    ev = [e for e in it.events if e.fn == q]
+    rf = [e for e in ev if e.kind == "call" and e.name.endswith("Motl.remove_feature")]
+    subs = [e for e in ev if e.kind == "call" and e.name.endswith("Motl.get_motl_subset")]
+    if len(rf) != 1 or not subs:
+        raise Unsupported("clean_by_tomo_mask: removal of the hits from the list not recognised (no single remove_feature call on the list)", fn)
+    recv = rf[0].extra.get("self") if isinstance(rf[0].extra, dict) else None
+    f_ = pyval(rf[0].args[0]) if is_pyconst(rf[0].args[0]) else None
+    vals = to_term(rf[0].args[1])
+    # the values come from the per-tomogram subset (a selection by the tomogram), the receiver is the whole list
+    from_subset = tm.contains(vals, lambda n: n.op == "sel") or getattr(rf[0].args[1], "space", None) is not None
+    ctx.count(1, {"removal": f"remove_feature({f_!r}, {tm.show(vals)[:80]})", "values from the tomogram's subset": bool(from_subset)})
+    if f_ is None:
+        raise Unsupported("clean_by_tomo_mask: the field the hits are removed by is not a literal", rf[0].node)
+    if f_ != "tomo_id":
+        ctx.finding(q, "removal by one field over the whole list",
+                    f"the particles on zero voxels of tomogram t are removed with remove_feature({f_!r}, <their {f_} values>) on the WHOLE list: every particle of "
+                    f"another tomogram that carries one of these {f_} values is removed as well (numbers that restart in every tomogram are common in lists "
+                    "concatenated from per-tomogram picking); the property keeps all particles that do not sit on a zero voxel of their own tomogram's mask",
+                    rf[0].node, m)
 
 
 def o96(ctx):
@@ -620,6 +666,7 @@ def _obligations():
     return [
         Obligation("O9.20", "accessors of the particle list: get_coordinates = (x,y,z) + shifts, get_angles / get_rotations = the stored zxz angles, fill stores values as given (shared with C05)", lambda ctx: __import__('spec.C05', fromlist=['accessors']).accessors(ctx), floor=20),
         Obligation("O9.9", "dimensions_load: an N x 4 table comes back as given (own tomogram number per row, columns tomo_id x y z), one triplet is repeated per listed tomogram", o99, floor=10),
+        Obligation("O9.11", "clean_by_tomo_mask: what is removed from the whole list identifies rows of the tomogram whose mask was consulted (not one field's values alone)", o911, floor=1),
         Obligation("O9.10", "helpers the filters remove through: remove_feature keeps exactly the rows that differ (exact !=), subsets select == (shared with C08)", lambda ctx: _c08.o81(ctx), floor=10),
         Obligation("O9.8", "tlt_load(file) returns every value (sorted only on request); total_dose_load hands arrays / lists back as given", o98, floor=4),
         Obligation("O9.7", "binarize returns file masks in (x,y,z) axis order (the order the coordinates index)", o97, floor=2),
